@@ -78,6 +78,7 @@ var specs = []spec{
 	{Out: "Erro", Arch: "amd64", Pkg: "./erro", Erro: true},
 	{Out: "SigSkeleton", Arch: "amd64", Pkg: "./internal/patch", Skeletons: []string{"SignatureEquals"}},
 	{Out: "ArgSkeleton", Arch: "amd64", Pkg: "./arg", Skeletons: []string{"I2V", "toValue", "V2I"}},
+	{Out: "ProxySkeleton", Arch: "amd64", Pkg: "./internal/proxy", Skeletons: []string{"Interface", "checkInterfaceImp", "methodIndexOf"}},
 	{Out: "MockerSkeleton", Arch: "amd64", Pkg: ".", Skeletons: []string{"DefMocker.Apply", "MethodMocker.Apply", "UnexportedMethodMocker.Apply",
 		"UnexportedFuncMocker.Apply", "DefaultInterfaceMocker.Apply", "baseMocker.applyByName", "baseMocker.applyByFunc", "baseMocker.applyByMethod",
 		"baseMocker.applyByIFaceMethod", "baseMocker.Cancel", "defaultVarMocker.Set", "defaultVarMocker.Apply", "defaultVarMocker.Cancel", "defaultVarMocker.doSet", "unExportedVarMocker.set"}},
